@@ -328,6 +328,16 @@ func TestMain(m *testing.M) {
 		col.Count("fuzz_known_finding_hits", int(sum.Known))
 		col.Count("fuzz_hang_suspects", int(sum.HangSuspects))
 		col.Note("native fuzzing (%s): worker executions are counted by the workers (periodic side files, the last <512 executions of a worker may be missing); their distinct cases are not part of distinct_nontrivial", fuzzTarget)
+		// The seed corpus, in-process (the engine hands it to the workers):
+		// booked as ordinary cases so that samples / classes are visible.
+		for _, sd := range fuzzSeeds() {
+			cs := caseFromBytes(sd)
+			out := run(cs)
+			if col.Record("fuzz", cs, out) {
+				col.Violation("fuzz", cs, out, false)
+				code = 1
+			}
+		}
 		// Hang suspects of the workers (short budget): decide with the
 		// normal budget.
 		for _, h := range suspects {
